@@ -33,11 +33,12 @@ func rangeKV(k, v ssa.Value) (*ssa.Range, bool) {
 }
 
 func C18(c *Ctx) {
-	c.R.Explanation = "Decides structural necessary conditions of 'permanent bindings survive every action and guard' on the SSA form of FuncAction.Exec: (R1) before the wrapped function is called, every (name, value) pair of the given bindings whose name is permanent is saved into a map created by this activation (not shared between executions); after the call, on every path that returns bindings, exactly the saved pairs are written back into the returned bindings — names and values both come from the saved map, never from the (possibly mutated) given bindings; the only ways around the write-back are the feature switch, a nil execution and nil bindings; (R2) FuncAction is the only Action implementation in the repository and the only caller of interpreter Exec functions, so every action and guard goes through the wrapper; (R3) the write-back is nil-safe and leaves nil bindings nil (a rejecting guard still rejects); (R4) nothing reachable from the given bindings is reachable from a value handed to the ECMAScript runtime, so a script cannot alter a permanent binding's value in place (the snapshot holds the same value object). (R5) on every path of core Step on which the action's error is non-nil, the bindings that are extended with the error texts, stored into the error state and handed to branch evaluation derive only from a copy of the given state's bindings — never from the failed execution's bindings (which the wrapper does not restore into) or from fresh empty bindings. Values for all scripts are not decided."
+	c.R.Explanation = "Decides structural necessary conditions of 'permanent bindings survive every action and guard' on the SSA form of FuncAction.Exec: (R1) before the wrapped function is called, every (name, value) pair of the given bindings whose name is permanent is saved into a map created by this activation (not shared between executions); after the call, on every path that returns bindings, exactly the saved pairs are written back into the returned bindings — names and values both come from the saved map, never from the (possibly mutated) given bindings; the only ways around the write-back are the feature switch, a nil execution and nil bindings; (R2) FuncAction is the only Action implementation in the repository and the only caller of interpreter Exec functions, so every action and guard goes through the wrapper; (R3) the write-back is nil-safe and leaves nil bindings nil (a rejecting guard still rejects); (R4) nothing reachable from the given bindings is reachable from a value handed to the ECMAScript runtime, so a script cannot alter a permanent binding's value in place (the snapshot holds the same value object). (R5) on every path of core Step on which the action's error is non-nil, the bindings that are extended with the error texts, stored into the error state and handed to branch evaluation derive only from a copy of the given state's bindings — never from the failed execution's bindings (which the wrapper does not restore into) or from fresh empty bindings. (R6) the bindings argument of the wrapped function is bs.Copy(): what a native action or guard deletes or overwrites at the top level before it fails or rejects never reaches the machine's bindings. Values for all scripts are not decided."
 	c.R.Rule("C18-R1", "E3+E5", "snapshot before, restore after, from a private map", 6)
 	c.R.Rule("C18-R2", "E7", "the wrapper is the sole executor", 3)
 	c.R.Rule("C18-R3", "E2", "restore is nil-safe and does not force bindings", 2)
 	c.R.Rule("C18-R4", "E1", "scripts cannot change a (permanent) binding's value in place: they see copies", 1)
+	c.R.Rule("C18-R6", "E5", "the wrapped function gets its own copy of the bindings, so a failing action or rejecting guard cannot have removed anything from the machine's", 1)
 	c.R.Rule("C18-R5", "E3+E5", "a failed action leaves the machine's bindings in place: Step goes on from a copy of the given bindings", 2)
 	c18Failure(c)
 	exec := c.fn("core", "FuncAction", "Exec")
@@ -112,7 +113,15 @@ func C18(c *Ctx) {
 		c.R.Break("C18: FuncAction.Exec has no Bindings parameter")
 		return
 	}
-	c.R.Check(len(K.Common().Args) >= 2 && K.Common().Args[1] == ssa.Value(bsParam), "C18-R1", "Exec: wrapped function gets the given bindings", c.pos(K), "F(ctx, bs, props)", "the wrapped function is not given the bindings")
+	givenOK := false
+	if len(K.Common().Args) >= 2 {
+		a1 := K.Common().Args[1]
+		givenOK = a1 == ssa.Value(bsParam)
+		if cl, isC := a1.(*ssa.Call); isC && cl.Common().StaticCallee() != nil && cl.Common().StaticCallee().Name() == "Copy" && len(cl.Common().Args) == 1 && cl.Common().Args[0] == ssa.Value(bsParam) {
+			givenOK = true // a copy of them (R6)
+		}
+	}
+	c.R.Check(givenOK, "C18-R1", "Exec: wrapped function gets the given bindings", c.pos(K), "F(ctx, bs or bs.Copy(), props)", "the wrapped function is not given the bindings")
 	isFlag := func(v ssa.Value) bool {
 		if u, ok := v.(*ssa.UnOp); ok {
 			if g, ok := u.X.(*ssa.Global); ok && g.Name() == "Exp_PermanentBindings" {
@@ -254,21 +263,48 @@ func C18(c *Ctx) {
 
 	// ---- restore
 	var restore *ssa.MapUpdate
+	var restoreCopy *ssa.Store // exe.Bs = <restored copy>, when the restore goes into a copy
 	for _, g := range closure {
 		ssau.Instrs(g, func(in ssa.Instruction) {
 			mu, ok := in.(*ssa.MapUpdate)
 			if !ok || mu == snap || !isBindingsT(mu.Map.Type()) {
 				return
 			}
-			// the map written is the Bs of the wrapped call's execution
+			// the map written is the Bs of the wrapped call's execution, or a copy of it that is then made its Bs
 			isExeBs := false
 			for _, d := range deepDefs(mu.Map, closure) {
 				if base, is := isFieldLoad(d, "core", "Execution", "Bs"); is && tracesTo(base, exeVal) {
 					isExeBs = true
-				} else {
-					isExeBs = false
-					break
+					continue
 				}
+				if cl, isC := d.(*ssa.Call); isC && cl.Common().StaticCallee() != nil && cl.Common().StaticCallee().Name() == "Copy" && len(cl.Common().Args) == 1 {
+					fromBs := false
+					for _, d2 := range deepDefs(cl.Common().Args[0], closure) {
+						if base, is := isFieldLoad(d2, "core", "Execution", "Bs"); is && tracesTo(base, exeVal) {
+							fromBs = true
+						}
+					}
+					installed := false
+					for _, g2 := range closure {
+						for _, st := range storesTo(g2, "Execution", "Bs") {
+							_, _, sb, _ := ssau.FieldOf(st.Addr)
+							if tracesTo(sb, exeVal) {
+								for _, d3 := range deepDefs(st.Val, closure) {
+									if d3 == d {
+										installed = true
+										restoreCopy = st
+									}
+								}
+							}
+						}
+					}
+					if fromBs && installed {
+						isExeBs = true
+						continue
+					}
+				}
+				isExeBs = false
+				break
 			}
 			if isExeBs {
 				restore = mu
@@ -308,6 +344,32 @@ func C18(c *Ctx) {
 			}
 			if isFlag(iff.Cond) {
 				return 1, true
+			}
+			// nothing was saved: `0 < len(saved)` false / `len(saved) == 0` true
+			if bo, ok := iff.Cond.(*ssa.BinOp); ok {
+				isLenM := func(v ssa.Value) bool {
+					cl, ok := v.(*ssa.Call)
+					if !ok {
+						return false
+					}
+					bi, isB := cl.Common().Value.(*ssa.Builtin)
+					if !isB || bi.Name() != "len" {
+						return false
+					}
+					for _, d := range deepDefs(cl.Common().Args[0], closure) {
+						if d != M && !ssau.IsNilConst(d) {
+							return false
+						}
+					}
+					return true
+				}
+				isZ := func(v ssa.Value) bool { n, ok := ssau.ConstInt(v); return ok && n == 0 }
+				switch {
+				case bo.Op == token.LSS && isZ(bo.X) && isLenM(bo.Y), bo.Op == token.GTR && isLenM(bo.X) && isZ(bo.Y), bo.Op == token.NEQ && (isLenM(bo.X) && isZ(bo.Y) || isZ(bo.X) && isLenM(bo.Y)):
+					return 1, true // the false edge skips
+				case bo.Op == token.EQL && (isLenM(bo.X) && isZ(bo.Y) || isZ(bo.X) && isLenM(bo.Y)):
+					return 0, true
+				}
 			}
 			if bo, ok := iff.Cond.(*ssa.BinOp); ok && ssau.IsNilConst(bo.Y) {
 				isExe := tracesTo(bo.X, exeVal)
@@ -378,8 +440,25 @@ func C18(c *Ctx) {
 			}
 		}
 	}
-	c.R.Check(okAfter, "C18-R1", "Exec: restore on every path that returns bindings", c.pos(restore), "the only ways around the write-back are the feature switch, a nil execution and nil bindings", "a path from the wrapped call to a return bypasses the write-back of permanent bindings")
+	c.R.Check(okAfter, "C18-R1", "Exec: restore on every path that returns bindings", c.pos(restore), "the only ways around the write-back are the feature switch, a nil execution, nil bindings and an empty snapshot", "a path from the wrapped call to a return bypasses the write-back of permanent bindings")
 
+	// ---- R6 the wrapped function works on a copy of the given bindings
+	{
+		okCopy, whyCopy := false, "the wrapped function is not given bindings"
+		for _, arg := range K.Common().Args {
+			if !isBindingsT(arg.Type()) {
+				continue
+			}
+			okCopy = true
+			for _, d := range deepDefs(arg, closure) {
+				cl, isC := d.(*ssa.Call)
+				if !isC || cl.Common().StaticCallee() == nil || cl.Common().StaticCallee().Name() != "Copy" || len(cl.Common().Args) != 1 || !tracesTo(cl.Common().Args[0], bsParam) {
+					okCopy, whyCopy = false, "the wrapped function receives "+d.String()+": a native action or guard that deletes from (or overwrites in) the map it is given and then fails or rejects has already changed the machine's bindings, permanent ones included"
+				}
+			}
+		}
+		c.R.Check(okCopy, "C18-R6", "Exec: the wrapped function gets a copy of the given bindings", c.pos(K), "F(ctx, bs.Copy(), props)", whyCopy)
+	}
 	// ---- R4 scripts see copies (a value shared with the script could be altered in place, and the altered value would be "restored")
 	if ea, _ := c.ecmaAnalysis(); ea != nil {
 		if c.scriptIsolation("C18-R4", ea, true) == 0 {
@@ -479,6 +558,20 @@ func C18(c *Ctx) {
 	// restore must not create bindings: no store to Execution.Bs of the callback's execution in Exec
 	forced := false
 	for _, st := range storesTo(exec, "Execution", "Bs") {
+		if st == restoreCopy {
+			// the restored copy of non-nil bindings becomes the result's bindings: non-nil stays non-nil
+			nonNil := false
+			for _, f := range flow.FactsAt(st.Block()) {
+				if bo, ok := f.Cond.(*ssa.BinOp); ok && ssau.IsNilConst(bo.Y) && ((bo.Op == token.NEQ && f.True) || (bo.Op == token.EQL && !f.True)) {
+					if _, is := isFieldLoad(bo.X, "core", "Execution", "Bs"); is {
+						nonNil = true
+					}
+				}
+			}
+			if nonNil {
+				continue
+			}
+		}
 		if fa, ok := st.Addr.(*ssa.FieldAddr); ok {
 			for _, d := range phiDefs(fa.X, nil, map[ssa.Value]bool{}) {
 				if ex, isEx := d.(*ssa.Extract); isEx && ex.Tuple == ssa.Value(K) {
@@ -487,7 +580,7 @@ func C18(c *Ctx) {
 			}
 		}
 	}
-	c.R.Check(!forced, "C18-R3", "Exec: nil bindings stay nil", c.pos(K), "the wrapper never assigns Execution.Bs of the result", "the wrapper replaces the returned bindings (a guard that rejects by returning nil would accept)")
+	c.R.Check(!forced, "C18-R3", "Exec: nil bindings stay nil", c.pos(K), "the wrapper assigns Execution.Bs of the result only to install the restored copy of non-nil bindings", "the wrapper replaces the returned bindings (a guard that rejects by returning nil would accept)")
 }
 
 // c18Failure: C18-R5.
